@@ -414,12 +414,76 @@ fn removed_entry_slice(ctx: &mut Ctx) {
     }
 }
 
+/// Two -size tests with (possibly) different units in one expression, on files several of which have
+/// the same length: the conjunction selects exactly the intersection of what each test selects alone
+/// (each test is a function of the entry and its own operand only — nothing carried from test to test
+/// or from entry to entry). The single tests themselves are decided against the model by the main grid.
+fn conjunction_slice(ctx: &mut Ctx) {
+    use std::ffi::OsStr;
+    let sbx = ctx.sbx.clone();
+    let dir = sbx.join("cj");
+    let _ = std::fs::remove_dir_all(&dir);
+    std::fs::create_dir_all(&dir).unwrap();
+    for (i, sz) in [0u64, 1, 1, 2, 511, 512, 512, 513, 1023, 1024, 1025, 5000, 5000, 1 << 20, (1 << 20) + 1, 5 << 20].iter().enumerate() {
+        let f = std::fs::File::create(dir.join(format!("f{i:02}"))).unwrap();
+        f.set_len(*sz).unwrap();
+    }
+    let find = crate::binrun::repo_bin("find");
+    let run = |tests: &[&str]| -> Option<BTreeSet<String>> {
+        let mut a: Vec<&OsStr> = vec![OsStr::new("cj"), OsStr::new("-type"), OsStr::new("f")];
+        for t in tests {
+            a.push(OsStr::new("-size"));
+            a.push(OsStr::new(t));
+        }
+        let o = crate::binrun::run(&find, &a, &sbx, &crate::binrun::Opts::default());
+        if o.code != Some(0) {
+            return None;
+        }
+        Some(String::from_utf8_lossy(&o.out).lines().map(|s| s.to_string()).collect())
+    };
+    let mut ops: Vec<String> = vec![];
+    for u in ["c", "w", "b", "k", "M"] {
+        for n in ["1", "+1", "-2", "5", "+0", "5000", "-5001", "10"] {
+            ops.push(format!("{n}{u}"));
+        }
+    }
+    let singles: Vec<Option<BTreeSet<String>>> = ops.iter().map(|o| run(&[o])).collect();
+    for (i, a) in ops.iter().enumerate() {
+        for (j, b) in ops.iter().enumerate() {
+            let (Some(sa), Some(sb)) = (&singles[i], &singles[j]) else {
+                ctx.rep.machinery(format!("C14 conjunction slice: find -size {a} / {b} alone failed"));
+                return;
+            };
+            let want: BTreeSet<String> = sa.intersection(sb).cloned().collect();
+            let got = run(&[a, b]);
+            ctx.rep.evaluations += 1;
+            if !want.is_empty() && want.len() < 16 {
+                ctx.rep.nontrivial += 1;
+            }
+            ctx.rep.count("conjunction_cases", 1);
+            if got.as_ref() != Some(&want) {
+                ctx.rep.violation(
+                    "C14 two -size tests in one expression do not select the intersection of what each selects alone",
+                    format!("find cj -type f -size {a} -size {b}: expected {:?}, got {:?}", want, got),
+                    json!({"prop":"C14","conjunction":[a, b]}),
+                );
+                let _ = std::fs::remove_dir_all(&dir);
+                return;
+            }
+        }
+    }
+    let _ = std::fs::remove_dir_all(&dir);
+}
+
 fn run(ctx: &mut Ctx) {
     if ctx.shard == 3 % ctx.nshards {
         low_descriptor_slice(ctx);
     }
     if ctx.shard == 8 % ctx.nshards {
         removed_entry_slice(ctx);
+    }
+    if ctx.shard == 5 % ctx.nshards {
+        conjunction_slice(ctx);
     }
     if let Err(e) = build(ctx) {
         ctx.rep.machinery(format!("sandbox: {e}"));
